@@ -97,39 +97,65 @@ example : getSource [⟨["c"], .reg, []⟩, ⟨["b"], .hardlink, ["c"]⟩, ⟨["
 /-! ## The entry tree -/
 
 /-- Building the tree never panics, for every entry list. -/
-theorem tree_total (ents : List Ent) : initTree ents ≠ Outcome.panic := treeLoop_no_panic _ _
+theorem tree_total (ents : List Ent) : initTree ents ≠ Outcome.panic := by
+  unfold initTree
+  split
+  · split <;> simp
+  · simp
+  · rename_i hp
+    exact absurd hp (treeLoop_no_panic _ _)
 
 /-- Every child edge of a tree `initFields` accepts leads to a strictly longer cleaned name
-(`base :: parent`) or to an entry that is not a directory. -/
-theorem tree_acyclic_partial (ents : List Ent) (t : Tree) (h : initTree ents = Outcome.ok t) :
-    ∀ e ∈ t.edges, e.target = e.base :: e.parent ∨ e.ttype ≠ EType.dir :=
-  treeLoop_edgesOK ents _ t (by intro e he; simp at he) h
+(`base :: parent`) or to an entry that has no children at all (a hardlink source, which the code
+requires to be childless since commit f3cca50) — and such an entry is never a directory. -/
+theorem tree_edges (ents : List Ent) (t : Tree) (h : initTree ents = Outcome.ok t) :
+    ∀ e ∈ t.edges, e.target = e.base :: e.parent ∨ (hasChild t.edges e.target = false ∧ e.ttype ≠ EType.dir) := by
+  obtain ⟨hl, hsrc⟩ := initTree_ok ents t h
+  have h2 := treeLoop_edgesOK2 ents _ t (by intro e he; simp at he) hl
+  have h1 := treeLoop_edgesOK ents _ t (by intro e he; simp at he) hl
+  intro e he
+  rcases h2 e he with hd | hs
+  · exact Or.inl hd
+  · rcases h1 e he with hd | hnd
+    · exact Or.inl hd
+    · exact Or.inr ⟨hsrc _ hs, hnd⟩
 
-/-- Hence a walker that descends into directories only (FUSE Lookup/Readdir, `cacheWithReader`)
-gets one component deeper with every step: `k` steps from `a` end at a name of length
-`|a| + k`, and no directory is its own descendant. -/
-theorem tree_dir_walk_deeper (ents : List Ent) (t : Tree) (h : initTree ents = Outcome.ok t)
-    (a b : Name) (k : Nat) (hc : DirChain t.edges a b k) :
-    b.length = a.length + k ∧ (b = a → k = 0) := by
-  have hl := dirChain_length (treeLoop_edgesOK ents _ t (by intro e he; simp at he) h) hc
-  exact ⟨hl, fun hab => by rw [hab] at hl; omega⟩
+/-- The tree is acyclic for EVERY walker (also one that descends into every entry that has
+children, whatever its type, as `memory.assignIDs` does): a node with children that is reached
+after `k` steps lies exactly `k` components below the start, and no walk returns to its start. -/
+theorem tree_acyclic (ents : List Ent) (t : Tree) (h : initTree ents = Outcome.ok t)
+    (a b : Name) (k : Nat) (hc : Chain t.edges a b k) :
+    (hasChild t.edges b = true → b.length = a.length + k) ∧ (b = a → k = 0) := by
+  have hes : EdgesLeafOrDeeper t.edges := by
+    intro e he
+    rcases tree_edges ents t h e he with hd | ⟨hl, _⟩
+    · exact Or.inl hd
+    · exact Or.inr hl
+  refine ⟨fun hb => chain_length hes hc hb, fun hab => ?_⟩
+  cases k with
+  | zero => rfl
+  | succ j =>
+    subst hab
+    have hch := chain_start_hasChild hc (by omega)
+    have := chain_length hes hc hch
+    omega
 
-/-- The full statement: every edge leads to a strictly longer name, so that ANY walker — also one
-that descends into every entry that has children, as `memory.assignIDs` does — terminates. -/
-def TreeAcyclicFull : Prop :=
-  ∀ (ents : List Ent) (t : Tree), initTree ents = Outcome.ok t → ∀ e ∈ t.edges, e.target = e.base :: e.parent
+/-- Walk depth is bounded by the names: `k` steps down from the root along entries with children end
+at a name of `k` components. -/
+theorem tree_walk_depth (ents : List Ent) (t : Tree) (h : initTree ents = Outcome.ok t)
+    (b : Name) (k : Nat) (hc : Chain t.edges [] b k) (hb : hasChild t.edges b = true) : b.length = k := by
+  have := (tree_acyclic ents t h [] b k hc).1 hb
+  simpa using this
 
-/-- It does not hold for the current code: `{p: reg, p/x: hardlink → p}` is accepted and makes the
-regular entry `p` a child of itself (the guard of commit 588493d only refuses directories). -/
-theorem tree_acyclic_full_fails : ¬ TreeAcyclicFull := by
-  intro h
-  have := h [⟨["p"], .reg, []⟩, ⟨["x", "p"], .hardlink, ["p"]⟩]
-    ⟨[⟨[], .dir, []⟩, ⟨["x", "p"], .hardlink, ["p"]⟩, ⟨["p"], .reg, []⟩],
-     [⟨["p"], "x", ["p"], .reg⟩, ⟨[], "p", ["p"], .reg⟩]⟩ (by decide) ⟨["p"], "x", ["p"], .reg⟩ (by decide)
-  exact absurd this (by decide)
-
-/-- The repaired inputs are rejected by the model too. -/
+/-- The repaired inputs are rejected by the model too: hardlink to the own parent directory
+(588493d) and hardlink to a non-directory ancestor (f3cca50). -/
 example : initTree [⟨["d"], .dir, []⟩, ⟨["x", "d"], .hardlink, ["d"]⟩] = Outcome.err := by decide
+example : initTree [⟨["p"], .reg, []⟩, ⟨["x", "p"], .hardlink, ["p"]⟩] = Outcome.err := by decide
+
+/-- Non-vacuity: a tree with an implicit directory and a hardlink is accepted. -/
+example : (initTree [⟨["f", "d"], .reg, []⟩, ⟨["l"], .hardlink, ["f", "d"]⟩]) =
+    Outcome.ok ⟨[⟨[], .dir, []⟩, ⟨["d"], .dir, []⟩, ⟨["l"], .hardlink, ["f", "d"]⟩, ⟨["f", "d"], .reg, []⟩],
+      [⟨[], "l", ["f", "d"], .reg⟩, ⟨["d"], "f", ["f", "d"], .reg⟩, ⟨[], "d", ["d"], .dir⟩], [["f", "d"]]⟩ := by decide
 
 /-! ## fs/reader `file.ReadAt` -/
 
